@@ -1,6 +1,32 @@
 /-
   Props/C04DecodedTimingUpper.lean — C04, timing clause on IEEE doubles: the slider hypothesis of
-  Props/C04DecodedTimingEvents.lean with the UPPER bounds alone (`SliderTailUpper`).
+  Props/C04DecodedTimingEvents.lean with the UPPER bounds alone (`SliderTailUpper`: end `A + dur` within the limit, tail
+  `A + n·D` and span ends `(A + k·D) + D` `≤ limit`; no clause `0 ≤ D`, no finiteness clause). `sliderTimes_upper_statement`
+  (open there) is proved under `C01.DistOk` — "no computed curve length is a negative number" — and thereby reduced to the
+  open statement of C01 (`sliderTimes_upper_statement_of_dist`), which is a theorem for every decoded slider that is not an
+  osu!-path-mode Catmull slider.
+
+  1. SIGN FACTS WITHOUT FINITENESS (`div_nonneg_float`, `le_add_nonneg_of_finite`, `le_ofInt_mul`; from the monotone rounded
+     `*`, `/`, `+` of Lemmas/FloatArithMono.lean): a rounded quotient of a number `≥ 0` by a positive one is `≥ 0` or a NaN.
+     **`span_nonneg_float`**: `0 ≤ d`, `0 < v`, `1 ≤ n < 2³¹` ⟹ `D = (n·d/v)/n` is `≥ 0` unless it is a NaN (`∞/∞`).
+  2. ONE SLIDER, **`sliderTailOk_of_upper`**: start within the limit, `NotNeg d` (a NaN or `≥ 0`), `v > 0`, `1 ≤ n < 2³¹`:
+     `SliderTailUpper → SliderTailOk`.
+     * a NaN / infinite `d` is excluded by the hypothesis itself (`dist_finite_of_end`: the end `A + n·d/v` within the limit
+       is finite, so are `n·d/v`, `n·d`, `d`); hence `0 ≤ d`;
+     * `D` is not a NaN because the tail is `≤ limit`; so `0 ≤ D` (1.), `D ≤ n·D`, `A ≤ A + n·D`: the tail is between the
+       finite start and the limit — FINITE, `−∞` excluded (`finite_of_le_le`);
+     * then `D` is finite, `0 ≤ k·D ≤ n·D`, `A ≤ A + k·D ≤ tail` finite, `A + k·D ≤ (A + k·D) + D ≤ limit`: finite.
+     The sign hypothesis CANNOT be dropped: `upper_needs_sign` (start `0`, `d = −2147483647`, `v = 13`, `n = 13`: all of
+     `SliderTailUpper` holds, the tail is one ulp below `−limit`). `SliderTailUpper` bounds tail and span ends from above only.
+  3. DECODED MAPS: `sliderTailInLimit_of_upper`, **`sliderTimes_upper_float_partial`** (hypothesis `C01.DistOk m.hitObjects`),
+     `sliderTimes_upper_float_catmull_partial` (`C01.CatmullSurplusOk m`), `sliderTimes_upper_float_no_catmull`
+     (unconditional without osu!-path-mode Catmull sliders), `sliderTimes_upper_statement_of_dist`; `ObjEndUpper` /
+     `ObjEndsUpper`, `objEnds_iff_upper`, **`collectedTimes_upper_float_partial`**, `decoded_repTimingMap_ieee_upper_partial`,
+     **`timing_lines_accepted_decoded_ieee_upper_partial`** (+ `…_catmull_partial`).
+     MISSING for the full `sliderTimes_upper_statement`: `DistOk` of decoded maps with an osu!-path-mode Catmull slider (the
+     rounding-error analysis of `optimized_len`, C01). No counterexample of a decoded map is known.
+  4. Non-vacuity / sharpness, kernel-evaluated on the decoded files of Props/C04DecodedTimingEvents.lean: `evU_accepted`,
+     `evOverU_not_collectedTimes`.
 -/
 import RosuModel.Props.C04DecodedTimingEvents
 import RosuModel.Props.C01IeeeFuel
